@@ -26,6 +26,17 @@ def items(tier):
             ]
             for mt in (None, 2):
                 out.append((sp, {"rule": "TSLACK", "max_time": mt if mt is not None else F.seq_bound(sp) + 8}))
+    # resources sharing a name (the constructor default gives every unnamed worker / facility the same name): IDs differ
+    for r0, r1 in ((4.0, 6.0), (0.0, 3.0), (2.0, 2.0)):
+        for par in (True, False):
+            sp = {"tasks": [{"name": "T0", "work": 2.0}, {"name": "T1", "work": 3.0, "nf": True}], "links": [] if par else [[0, 1, "FS"]],
+                  "components": [{"name": "C1", "tasks": [1]}],
+                  "workplaces": [{"name": "WP0", "cap": 1.0, "targets": [1], "facilities": [{"name": "New Facility", "id": "F0", "skills": {"T1": 1.0}, "cost": r0},
+                                                                                          {"name": "New Facility", "id": "F1", "skills": {"T1": 1.0}, "cost": r1}]}],
+                  "teams": [{"name": "TM0", "targets": [0, 1], "workers": [{"name": "New Worker", "id": "W0", "skills": {"T0": 1.0, "T1": 1.0}, "fskills": {"New Facility": 1.0}, "cost": r0},
+                                                                          {"name": "New Worker", "id": "W1", "skills": {"T0": 1.0, "T1": 1.0}, "fskills": {"New Facility": 1.0}, "cost": r1},
+                                                                          {"name": "New Worker", "id": "W2", "skills": {"T0": 1.0, "T1": 1.0}, "fskills": {"New Facility": 1.0}, "cost": 1.5}]}]}
+            out.append((sp, {"rule": "TSLACK", "max_time": 14}))
     for sp in F.fac_specs(tier):
         sp = dict(sp)
         out.append((sp, {"rule": "TSLACK", "max_time": F.seq_bound(sp) + 8}))
@@ -39,7 +50,7 @@ def run(tier, seed):
     meta = {
         "level": "model_checking",
         "rule": "FS workflows on 3 tasks x all cost-rate triples over {0,1,2.5} in two teams plus an empty team (runs to completion and runs cut by max_time=2 -> FAILURE) "
-        "and the FAC family (workplaces with facilities of rates 1 and 2), each explored over all absence answers (project, each worker, each facility; thorough: also pairs) "
+        "models whose workers and facilities share one name (different IDs), and the FAC family (workplaces with facilities of rates 1 and 2), each explored over all absence answers (project, each worker, each facility; thorough: also pairs) "
         "up to horizon H with <= D non-default answers; non-trivial = distinct (model, resource, charged rate>0, at-absence-step) events",
         "bounds": {"H": H, "D": D, "base_models": len(its)},
         "assumptions": ["cost oracle reads the state logs; their agreement with the live state is C08's job"],
